@@ -8,4 +8,7 @@ EXPLANATION = (
     "deepcopy / pickle are decided by the bounded stand-in only.")
 ASSUMED = ["to_dict/to_json/to_pydict/__eq__/__repr__/copy/pickle: bounded stand-in only"]
 from pyvc.check import standin_bounded
-BOUNDED = [standin_bounded("C14")]
+from pyvc.check import external_bounded
+BOUNDED = [standin_bounded("C14"),
+           external_bounded("deep-schema:C14", "standin.deep", ["C14", "--n", "150"], ["C14", "--n", "800"],
+                            "nested schema (containers of oneof-carrying / field-less messages, two-level lazy parents, float maps, Duration JSON strings); observation-based oracle")]
